@@ -199,12 +199,14 @@ class BroadcastObserver(ObserverBaseComponent):
         if not self._supported_agent(agent):
             return {}
 
-        obs = {other: 0 for other in agent.observation_space[self.key]}
+        obs = {
+            other: np.zeros((1,), dtype=np.float32) for other in agent.observation_space[self.key]
+        }
         receive_from = self._broadcasting_state.update_message_and_reset_receiving(agent)
         for agent_id, message in receive_from:
-            obs[agent_id] = message
-        obs[agent.id] = agent.message
-        return obs
+            obs[agent_id] = np.array([message], dtype=np.float32)
+        obs[agent.id] = np.array([agent.message], dtype=np.float32)
+        return {self.key: obs}
 
 
 class AverageMessageDone(DoneBaseComponent):
@@ -314,7 +316,7 @@ class BroadcastSim(GridWorldSimulation):
     def get_all_done(self, **kwargs):
         return self.done.get_all_done(**kwargs)
 
-    def get_info(self, **kwargs):
+    def get_info(self, agent_id, **kwargs):
         return {}
 
 
